@@ -856,6 +856,9 @@ func (c *FnCtx) binop(st *State, op token.Token, a, b *Val, t types.Type, at ast
 		// x & (2^k-1)
 		if k, ok := maskConst(b.T); ok {
 			r = tApp("mod", a.T, pow2(k))
+		} else if bi, ok := new(big.Int).SetString(b.T, 10); ok && bi.Sign() > 0 && new(big.Int).And(bi, new(big.Int).Sub(bi, big.NewInt(1))).Sign() == 0 {
+			// x & 2^k: bit k of x (floor division, so also right for two's complement negatives)
+			r = tApp("*", b.T, tApp("mod", tApp("div", a.T, b.T), "2"))
 		}
 	}
 	if r == "" {
